@@ -287,6 +287,7 @@ def worker_main(pid, subname, shard, tier, seed, outpath):
     budget_s = sub.timeout[tier] * 0.8
     state = {"fail": None, "calls_after_fail": 0, "harness": None}
 
+    os.environ["VERIF_SHARD"] = str(shard)
     if sub.setup is not None:
         try:
             sub.setup(tier)
@@ -502,7 +503,7 @@ def run_property(pid, tier, seed, only=None, jobs=None):
             s, sh = pending.pop(0)
             out = os.path.join(workdir, "%s-%d.json" % (s.name, sh))
             p = _spawn(["--worker", pid, s.name, str(sh), tier, str(seed), out], workdir,
-                       "%s-%d" % (s.name, sh))
+                       "%s-%d" % (s.name, sh), shared_cache=bool(getattr(mod, "SHARED_CACHE", False)))
             running.append((s, sh, out, p, time.time()))
         time.sleep(0.05)
         still = []
@@ -689,13 +690,13 @@ def _rmtree(path):
     shutil.rmtree(path, ignore_errors=True)
 
 
-def _spawn(args, workdir, tag):
+def _spawn(args, workdir, tag, shared_cache=False):
     env = dict(os.environ)
     env["PYTHONHASHSEED"] = "0"
     env.setdefault("OMP_NUM_THREADS", "1")
     env.setdefault("OPENBLAS_NUM_THREADS", "1")
     env.setdefault("MKL_NUM_THREADS", "1")
-    env["XDG_CACHE_HOME"] = os.path.join(workdir, "xdg-" + tag)
+    env["XDG_CACHE_HOME"] = os.path.join(workdir, "xdg-shared" if shared_cache else "xdg-" + tag)
     env["MPLBACKEND"] = "Agg"
     os.makedirs(env["XDG_CACHE_HOME"], exist_ok=True)
     log = open(os.path.join(workdir, tag + ".log"), "w")
